@@ -478,6 +478,10 @@ def boundary_cases():
     out.append(dict(gen="darr", p=dict(kind="darr", names=[["", "b"], [0, 1]], array=[[0, 0], [0, 1]], dtype="int"), block="enum"))
     out.append(dict(gen="darr", p=dict(kind="darr", names=[[""]], array=[0.0]), block="enum"))
     out.append(dict(gen="darr", p=dict(kind="dmat", dists=[[["a", "b"], 0.0], [["b", "a"], 0.0]]), block="enum"))
+    out.append(dict(gen="darr", p=dict(kind="dmat_array", names=["c", "a", "b"], array=[[0, 1, 2], [1, 0, 3], [2, 3, 0]]), block="enum"))
+    out.append(dict(gen="darr", p=dict(kind="dmat_array", names=["a", "b"], array=[[5, 1], [1, 0]]), block="enum"))
+    out.append(dict(gen="darr", p=dict(kind="dmat_array", names=["a", "b", "c"], array=[[0, 1, 2.5], [1.5, 0, 3], [2, 3, 0]]), block="enum"))
+    out.append(dict(gen="darr", p=dict(kind="dmat_array", names=["b", "B", "a b", ""], array=[[0, 1, 2, 3], [1, 0, 4, 5], [2, 4, 0, 6], [3, 5, 6, 0]]), block="enum"))
     out.append(dict(gen="lf", p=dict(model="HKY85", tree=TREE3, aln=ALN3, name="", ops=[["rule", dict(par_name="kappa", is_constant=True, value=1.0)]]), block="enum"))
     out.append(dict(gen="lf", p=dict(model="HKY85", tree=TREE3, aln=ALN3, ops=[["lengths", {"a": 0.0}], ["rule", dict(par_name="kappa", init=1e-6, lower=0.0)]]), block="enum"))
     out.append(dict(gen="db", p=dict(kind="basic", ops=[]), block="enum"))
@@ -884,6 +888,10 @@ def compare_case(rep, c, r, stats):
                 if key in reported:
                     continue
                 reported.add(key)
+            elif obs.get("kind") == "dmat" and family == "json" and field_of(d) in ("names", "arr"):
+                # the decoder rebuilds the matrix from the pair keys: names come back sorted, the diagonal as 0.0
+                # (Properties/C10.v dmat_name_order_refuted / dmat_diagonal_refuted): one finding
+                key = "darr:DistanceMatrix:json:names"
             elif c["gen"] == "view" and field_of(d) in ("pstart", "pstop"):
                 # the bare view's position: Properties/C10.v seqview_position_refuted
                 key = "view:SeqView:json:position"
@@ -960,13 +968,40 @@ def coq_cases(cases, impl):
                                   for c in data["order"]) + "]"
             ix = "None" if it["index_name"] is None else f"(Some {zstr(it['index_name'])})"
             out.append((i, "table", f"CTable {ix} {coq_dict(attrs)} {cols}", [valform(rd), after_form(e["after"])]))
-        elif g == "darr" and "rd" in e:
+        elif g == "darr" and "rd" in e and "names" in e["rd"]:
             rd = e["rd"]
             names = "[" + ";".join("[" + ";".join(coq_json(v) for v in dim) + "]" for dim in rd["names"]) + "]"
             out.append((i, "darr", f"CDarr {names} {coq_json(rd['array'])}", [valform(rd), after_form(e["after"])]))
         elif g == "result" and "rd" in e:
             con = e["rd"]["not_completed_construction"]
             out.append((i, "nc", f"CNC [{';'.join(coq_json(v) for v in con['args'])}] {coq_dict(con['kwargs'])}", [valform(e["rd"]), after_form(e["after"])]))
+        elif g == "darr" and "names" in e and e.get("array") is not None:
+            if not all(isinstance(v, float) for row in e["array"] for v in row):
+                continue
+            rows = "[" + ";".join("[" + ";".join(coq_json(v) for v in row) + "]" for row in e["array"]) + "]"
+            out.append((i, "dmat", f"CDmat {'[' + ';'.join(zstr(n) for n in e['names']) + ']'} {rows} {coq_json(e['invalid'])}", dict(rd=e["rd"], after=e["after"])))
+        elif g == "imap" and "rd" in e:
+            sp = e["rd"]["spans"]
+            if not all(x.get("value") is None and not x.get("tidy_start") and not x.get("tidy_end")
+                       and x["type"].rsplit(".", 1)[-1] in ("Span", "_LostSpan") for x in sp):
+                continue   # TerminalPadding (termini_unknown) and span values are outside the C08 span model
+            spans = "[" + ";".join(f"FeatureMap.FS {zlit(x['start'])} {zlit(x['end'])} {cbool(x['reverse'])}" if "start" in x else f"FeatureMap.FL {zlit(x['length'])}" for x in sp) + "]"
+            out.append((i, "fmap", f"CFmap {spans} {zlit(e['rd']['parent_length'])}", dict(rd=e["rd"], after=e["after"])))
+        elif g == "db" and "rd" in e:
+            recs = e["rd"].get("tables", {}).get("user", [])
+            if set(e["rd"].get("tables", {})) != {"user"} or not rows_modelable(recs):
+                continue
+            out.append((i, "db", "CDb [" + ";".join(coq_row(1, r) for r in recs) + "]", dict(rd=e["rd"], after=e["after"])))
+        elif g == "seq_db" and "rd" in e:
+            adb = e["rd"].get("annotation_db")
+            if not adb or set(adb.get("tables", {})) != {"user"} or not rows_modelable(adb["tables"]["user"]) or not adb["tables"]["user"]:
+                continue
+            if isinstance(e["after"], dict) and "annotation_db" not in e["after"] and "exc" not in e["after"]:
+                pass
+            out.append((i, "seqdb", f"CSeqDb KDna {cview(e['view'])} {zstr(e['parent'])} [" + ";".join(coq_row(1, r) for r in adb["tables"]["user"]) + "]",
+                        dict(rd=e["rd"], after=e["after"])))
+        elif g == "alpha" and "rd" in e:
+            out.append((i, "moltype", f"CMolType {zstr(e['rd']['moltype'])}", dict(rd=e["rd"], after=e["after"])))
         elif g == "imap":
             m = e["map"]
             exp = [e["dict_map"], e["dict_map"]]
@@ -1031,6 +1066,59 @@ def after_form(after):
     return valform(after)
 
 
+def unval(v):
+    """inverse of valform on what the model prints: tagged objects -> dict, tagged floats -> float"""
+    if isinstance(v, list):
+        if len(v) == 2 and isinstance(v[0], dict) and v[0] == {"exc": 0}:
+            return {k: unval(x) for k, x in v[1]}
+        if len(v) == 2 and isinstance(v[0], dict) and v[0] == {"exc": 1}:
+            return float(v[1])
+        return [unval(x) for x in v]
+    return v
+
+
+def noversion(x):
+    if isinstance(x, dict):
+        return {k: (None if k == "version" else noversion(v)) for k, v in x.items()}
+    if isinstance(x, list):
+        return [noversion(v) for v in x]
+    if isinstance(x, float) and x != x:
+        return "nan"
+    return x
+
+
+def project_kind(kind, d):
+    """the part of a rich dict the model is compared on"""
+    if isinstance(d, dict) and set(d) >= {"exc"} and "type" not in d:
+        return {"exc": d["exc"]}
+    if kind == "db":
+        return {"user": d.get("tables", {}).get("user", [])}
+    if kind == "seqdb":
+        return {"seq": d["seq"]["init_args"]["seq"], "step": d["seq"]["init_args"]["step"], "offset": d.get("annotation_offset"),
+                "user": (d.get("annotation_db") or {}).get("tables", {}).get("user", [])}
+    if kind == "fmap":
+        return {"spans": d["spans"], "parent_length": d["parent_length"], "type": d["type"]}
+    return d
+
+
+def coq_opt_str(x):
+    return "None" if x is None else f"(Some {zstr(x)})"
+
+
+def coq_row(table, r):
+    oa = r.get("on_alignment")
+    return (f"(AnnotDb.Build_row {table} {coq_opt_str(r.get('seqid'))} {coq_opt_str(r.get('biotype'))} {coq_opt_str(r.get('name'))} "
+            f"{coq_opt_str(r.get('strand'))} {coq_opt_str(r.get('attributes'))} {'None' if oa is None else '(Some ' + cbool(bool(oa)) + ')'} "
+            f"[{';'.join(f'({zlit(a)},{zlit(b)})' for a, b in r['spans'])}] {zlit(r['start'])} {zlit(r['stop'])})")
+
+
+ROW_KEYS = {"seqid", "biotype", "name", "strand", "attributes", "on_alignment", "spans", "start", "stop"}
+
+
+def rows_modelable(recs):
+    return all(set(r) <= ROW_KEYS and "spans" in r and "start" in r and "stop" in r and r.get("on_alignment") in (None, 0, 1) for r in recs)
+
+
 def wf_map(m):
     gp, cum, plen = m
     if len(gp) != len(cum) or plen < 0:
@@ -1051,6 +1139,13 @@ def match_model(kind, exp, got):
         if isinstance(x, list) and isinstance(y, list):
             return len(x) == len(y) and all(eq(a, b) for a, b in zip(x, y))
         return x == y
+    if kind in ("dmat", "fmap", "db", "seqdb", "moltype"):
+        # JSON-level, key order of dicts not compared, only the modelled part of the dict (project_kind)
+        if not (isinstance(got, list) and len(got) == 2):
+            return False
+        m_rd, m_after = (noversion(unval(x)) if not (isinstance(x, dict) and "exc" in x) else x for x in got)
+        return (project_kind(kind, noversion(exp["rd"])) == project_kind(kind, m_rd)
+                and project_kind(kind, noversion(exp["after"])) == project_kind(kind, m_after))
     if kind in ("tree", "table", "darr", "nc"):
         return exp == got          # strict: a JSON null is a value here, not a wildcard
     return eq(exp, got)
@@ -1058,7 +1153,7 @@ def match_model(kind, exp, got):
 
 def run_model(items):
     terms = [t for (_, _, t, _) in items]
-    return core.coq_eval(PROP, ["Model.View", "Model.Serial", "Model.SerialRun", "From CG3 Require Lib.Rose."], "run_case", terms, "case", shard=300)
+    return core.coq_eval(PROP, ["Model.View", "Model.Serial", "Model.SerialRun", "From CG3 Require Lib.Rose Model.FeatureMap Model.AnnotDb."], "run_case", terms, "case", shard=300)
 
 
 def registry_checks(rep, inv, stats):
@@ -1177,18 +1272,26 @@ def run(tier: str, seed: int) -> int:
         samples=[dict(case=cases[sample_i], impl=dict(cls=impl[sample_i].get("cls"), obs=impl[sample_i].get("obs"), enc=impl[sample_i].get("enc")))],
         input_distribution=dict(cases=len(cases), by_generator=by_gen, routes=stats["routes"], classes_exercised=seen, model_cases=nmodel,
                                 dispatch_types=stats.get("dispatch_types", 0)),
-        partial=["registered types without a theorem (decided by the real-code oracle only): DistanceMatrix, profiles, old/new alphabets, MolType, "
-                 "genetic codes, substitution models, likelihood functions, app results other than NotCompleted, annotation dbs, FeatureMap, Span/LostSpan, "
-                 "new-style SequenceCollection/SeqsData, ArrayAlignment/SequenceCollection rows; the pickle and deepcopy routes of every type; data-store "
-                 "members offer no to_rich_dict/to_json (their payload is one of the above)",
+        partial=["registered types without a theorem (decided by the real-code oracle only): old/new alphabets, genetic codes, substitution models, "
+                 "likelihood functions, app results other than NotCompleted, Gff/Genbank annotation dbs, new-style SequenceCollection/SeqsData, "
+                 "ArrayAlignment/SequenceCollection rows, alignments WITH an annotation db; the pickle and deepcopy routes of every type; data-store members "
+                 "offer no to_rich_dict/to_json (their payload is one of the above)",
+                 "DistanceMatrix: the general statement (stmt_dmat_roundtrip) is not proved; proved for sorted names a<b<c(<d) with arbitrary cells "
+                 "(dmat_roundtrip_small_2/3/4); unsorted names / non-zero diagonal are refuted by witnesses and compared as {(a,b): d} only by the oracle",
+                 "profile arrays (MotifCountsArray/MotifFreqsArray/PSSM): class preservation refuted for every instance (profile_class_refuted, finding C10-K10)",
                  "trees: the theorem holds under C09's name guard (root called 'root', other names distinct/parseable); only the 'length' edge attribute is "
                  "modelled, other edge params are compared on the real code",
-                 "tables: the numpy cast of Columns.__setstate__ is modelled as the identity on what __getstate__ writes; text columns do not keep their "
-                 "dtype (table_text_dtype_refuted)",
-                 "annotation-db payload inside sequence/alignment dicts is not modelled (compared on the real code)"],
-        types_with_theorem=["cogent3.core.sequence.{Sequence,DnaSequence,RnaSequence,...}", "cogent3.core.new_sequence.{Sequence,DnaSequence,RnaSequence}",
-                            "cogent3.core.sequence.SeqView", "cogent3.core.location.IndelMap", "cogent3.core.alignment.Aligned", "cogent3.core.alignment.Alignment",
-                            "cogent3.core.tree.PhyloNode", "cogent3.util.table.Table", "cogent3.util.dict_array.DictArray", "cogent3.app.composable.NotCompleted"],
+                 "tables: the numpy cast of Columns.__setstate__ is modelled as the identity on what __getstate__ writes",
+                 "annotation dbs: BasicAnnotationDb records (C17 row model, tables 'user' + the class' own); a sequence with its db is modelled for the "
+                 "old-style Sequence only (new-style documents that the db is not serialised); span 'value'/'tidy' flags of a FeatureMap are not modelled",
+                 "moltypes by label only (get_moltype(label)); alphabets and genetic codes not modelled"],
+        types_with_theorem=["cogent3.core.sequence.{Sequence,DnaSequence,RnaSequence,...} (also with an attached BasicAnnotationDb)",
+                            "cogent3.core.new_sequence.{Sequence,DnaSequence,RnaSequence}",
+                            "cogent3.core.sequence.SeqView", "cogent3.core.location.IndelMap", "cogent3.core.location.FeatureMap (Span, _LostSpan)",
+                            "cogent3.core.alignment.Aligned", "cogent3.core.alignment.Alignment", "cogent3.core.tree.PhyloNode", "cogent3.util.table.Table",
+                            "cogent3.util.dict_array.DictArray", "cogent3.app.composable.NotCompleted", "cogent3.core.annotation_db.BasicAnnotationDb",
+                            "cogent3.core.moltype.MolType", "cogent3.evolve.fast_distance.DistanceMatrix (small sizes only)"],
+        types_refuted=["cogent3.core.profile.{MotifCountsArray,MotifFreqsArray,PSSM} (class not preserved)", "bare cogent3.core.sequence.SeqView position"],
         types_in_inventory=len(concrete), types_uncovered=uncovered, types_without_decoder=stats.get("types_without_decoder", []),
         generator_errors=len(stats["gen_errors"]), generator_error_samples=stats["gen_errors"][:3],
         model_impl_disagreements=len(disagreements), spec_violations=nvio, exhaustive=False,
